@@ -4,24 +4,28 @@ import struct
 import numpy as np
 
 from .. import camx, lib
+from .. import slabfmt as S
 
 ID = 'C09'
 LEAN_MODULE = 'PncProofs.C09'
 LEAN_FILE = 'PncProofs/C09.lean'
 NAMESPACE = 'Props.C09'
-LEAN_CONE = ['PncModel.Words', 'PncModel.Camx.Uamiv', 'PncProofs.WordsLemmas', 'PncProofs.UamivLemmas', 'PncProofs.C09']
+LEAN_CONE = ['PncModel.Words', 'PncModel.Camx.Uamiv', 'PncModel.Camx.Slab', 'PncProofs.WordsLemmas', 'PncProofs.UamivLemmas', 'PncProofs.C09']
 LEMMA_FILES = ['PncProofs/WordsLemmas.lean', 'PncProofs/UamivLemmas.lean']
-REQUIRED_THEOREMS = ['tiles', 'header_counts', 'refDecode_encode']
+REQUIRED_THEOREMS = ['tiles', 'header_counts', 'refDecode_encode', 'slab_tiles', 'slab_record_content']
 RULE = ('uamiv files (all four NAME variants, 1-3 species with names up to 10 characters, nx, ny 1-4, nz 1-3, '
         '1-3 steps, begin/end flags with and without ETFLAG, any finite float32 payload incl. denormals and -0): '
         'kind write = library writer bytes vs the Lean encoder and an independent python record walker; kind '
         'read = bytes of the Lean reference encoder read by the library Memmap reader vs the Lean reader model; '
         'read2 = the same through the legacy record reader uamiv.Read on the files it is meaningful for (AVERAGE/INSTANT, '
         'odd hour step, all steps within one day, every count >= 2), dimensions/species/data compared; the writer is fed '
-        'float32 and float64 variables; '
+        'float32 and float64 variables; slab formats (one3d, humidity, vertical diffusivity, temperature, height/pressure): '
+        'kind swrite = bytes of the library writer (float32 or float64 input) vs the Lean encoder and an independent record '
+        'walker (markers tile the file, every record carries the time, date and cells that were written, in the layout\'s order), '
+        'kind sread = reference-encoded bytes read by the Memmap reader vs the Lean reader model; '
         'non-trivial = at least two of nspec, nx*ny, nz, nt are > 1 and pairwise different strides')
 ASSUMPTIONS = ['numpy tofile/memmap and float32 <-> bits conversion are trusted (exercised incl. denormals, -0)',
-               'only the uamiv family is covered by this check so far; the other binary formats are listed in DESIGN.md']
+               'covered: the uamiv family and the five slab formats; lateral_boundary, landuse, cloud_rain, wind and bpch (see C18) are not in this check']
 MIN_NONTRIVIAL = {'quick': 30, 'thorough': 300}
 
 
@@ -38,10 +42,66 @@ def gen(rng, tier):
             if c['kind'] == 'write':
                 c['vdtype'] = rng.choice(['f', 'f', 'd'])
         out.append(c)
+    for i in range(n // 2):
+        c = S.gen(rng)
+        c['kind'] = 'swrite' if i % 2 == 0 else 'sread'
+        c['vdtype'] = rng.choice(['f', 'f', 'd'])
+        out.append(c)
     return out
 
 
+def _impl_slab(case):
+    import os
+    import numpy as np
+    try:
+        if case['kind'] == 'swrite':
+            return dict(hex=S.write_with_library(case, case['vdtype']).hex())
+        b = S.encode(case)
+        p = os.path.join(camx.tmpdir(), 'c09s_%d_%d.bin' % (os.getpid(), np.random.randint(1 << 30)))
+        open(p, 'wb').write(b)
+        try:
+            with lib.pnc_warnings():
+                v = S.view(S.open_reader(case, p, 'memmap'), case)
+        finally:
+            os.remove(p)
+        v['hex'] = b.hex()
+        return v
+    except lib.HarnessError:
+        raise
+    except Exception as e:
+        return dict(err=type(e).__name__, msg=str(e)[:120])
+
+
+def _oracle_slab(case, res):
+    if 'err' in res:
+        return 'raised %s %s' % (res['err'], res.get('msg'))
+    if case['kind'] == 'swrite':
+        b = bytes.fromhex(res['hex'])
+        try:
+            recs = camx.walk_records(b)
+        except ValueError as e:
+            return 'records do not tile the file: %s' % e
+        n = case['nx'] * case['ny']
+        want = [(d, hhmm, sl) for (d, hhmm), slabs in zip(case['flags'], case['data']) for sl in slabs]
+        if len(recs) != len(want):
+            return '%d records, expected %d' % (len(recs), len(want))
+        for i, (r, (d, hhmm, sl)) in enumerate(zip(recs, want)):
+            if len(r) != 8 + 4 * n:
+                return 'record %d has %d bytes, expected %d' % (i, len(r), 8 + 4 * n)
+            t, dd = struct.unpack('>fi', r[:8])
+            if (t, dd) != (float(hhmm), d):
+                return 'record %d carries time/date %s, written %s' % (i, (t, dd), (hhmm, d))
+            if list(struct.unpack('>%dI' % n, r[8:])) != sl:
+                return 'record %d: cells differ from what was written' % i
+        return None
+    if (float(res['nt']), float(res['nz'])) != (float(len(case['flags'])), float(case['nz'])):
+        return 'library reads nt,nz = %s,%s from a reference file of %d,%d' % (res['nt'], res['nz'], len(case['flags']), case['nz'])
+    return None
+
+
 def impl(case):
+    if case['kind'] in ('swrite', 'sread'):
+        return _impl_slab(case)
     try:
         if case['kind'] == 'write':
             b = camx.write_with_library(case)
@@ -57,6 +117,10 @@ def impl(case):
 
 
 def to_line(case, res):
+    if case['kind'] == 'swrite':
+        return 'bin slab-enc ' + S.lean_steps(case)
+    if case['kind'] == 'sread':
+        return 'bin slab-mm %s %d %s' % (S.FORMATS[case['fmt']][0], case['nx'] * case['ny'], res.get('hex') or S.encode(case).hex())
     if case['kind'] == 'write':
         return camx.uamiv_write_line(case)
     return 'bin uamiv-read %s 0' % (res.get('hex') or camx.ref_encode_uamiv(case).hex())
@@ -67,6 +131,16 @@ def agree(case, out, res):
         return None if out.startswith('err') else 'impl raised %s (%s), model %s' % (res['err'], res.get('msg'), out[:60])
     if not out.startswith('ok '):
         return 'model %s, impl returned' % out[:60]
+    if case['kind'] == 'swrite':
+        return None if out[3:] == res['hex'] else 'writer bytes differ from the reference encoding (first difference at byte %d)' % _firstdiff(out[3:], res['hex'])
+    if case['kind'] == 'sread':
+        _, kv = lib.parse_kv('x ' + out[3:])
+        for k in ('nt', 'nz'):
+            if float(kv[k]) != float(res[k]):
+                return '%s model=%s impl=%s' % (k, kv[k], res[k])
+        if kv['vars'] != res['vars'] or kv['tflag'] != res.get('tflag'):
+            return 'reader view differs from the model (data or time flags)'
+        return None
     if case['kind'] == 'write':
         return None if out[3:] == res['hex'] else 'writer bytes differ from the reference encoding (first difference at byte %d)' % _firstdiff(out[3:], res['hex'])
     return camx.diff_view(out, res)
@@ -81,6 +155,8 @@ def _firstdiff(a, b):
 
 def oracle(case, res):
     """independent python record walker: markers tile the file, header counts match, content recovered"""
+    if case['kind'] in ('swrite', 'sread'):
+        return _oracle_slab(case, res)
     if 'err' in res:
         return 'raised %s %s' % (res['err'], res.get('msg'))
     nspec, nx, ny, nz, nt = len(case['species']), case['nx'], case['ny'], case['nz'], len(case['tflag'])
@@ -152,6 +228,8 @@ KEY_YEND = 'C08/uamiv-write/end-date-year-rollover'
 
 
 def classify(case, failure, model_out):
+    if case['kind'] in ('swrite', 'sread'):
+        return None
     if failure.startswith('end flag of a step ending at midnight 31 Dec'):
         return KEY_YEND
     if 'TFLAG' in failure and _crosses_2000(case):
@@ -165,6 +243,8 @@ def _crosses_2000(case):
 
 
 def nontrivial(case, res):
+    if case['kind'] in ('swrite', 'sread'):
+        return len({case['nz'], case['nx'] * case['ny'], len(case['flags'])} - {1}) >= 2
     dims = [len(case['species']), case['nx'] * case['ny'], case['nz'], len(case['tflag'])]
     return sum(1 for d in dims if d > 1) >= 2
 
@@ -174,7 +254,10 @@ def distribution(recs):
     for r in recs:
         c = r['case']
         d[c['kind']] = d.get(c['kind'], 0) + 1
-        d['name_' + c['name']] = d.get('name_' + c['name'], 0) + 1
+        if 'name' in c:
+            d['name_' + c['name']] = d.get('name_' + c['name'], 0) + 1
+        else:
+            d['fmt_' + c['fmt']] = d.get('fmt_' + c['fmt'], 0) + 1
         if 'err' in r['impl']:
             d['err_' + r['impl']['err']] = d.get('err_' + r['impl']['err'], 0) + 1
     return d
